@@ -156,6 +156,7 @@ func features(ser string) sqlgen.Features {
 	f.Partitions = hx.Allowed("c06.partitions")
 	f.QuotedOddNames = true
 	f.Corners = true
+	f.ReturningAlias = true
 	f.QuotedDotName = hx.Allowed("c06.quoted_dot_name")
 	f.QuotedDigitsName = hx.Allowed("c06.quoted_digits_name")
 	if ser == "cli" && !hx.Allowed("c06.cli.unimplemented_clauses") {
